@@ -37,6 +37,7 @@ type Call struct {
 	Fault   *Fault `json:"fault,omitempty"`
 	Reader  string `json:"reader,omitempty"` // bytes | onebyte | dataerr | half : how stream bodies deliver their bytes
 	Cred    string `json:"cred,omitempty"`   // secure: header | basic+query | bearer | none | wrong
+	Huge    bool   `json:"huge,omitempty"`   // echoForm: one member is longer than ten MiB
 }
 
 // CallRecord is everything observed about one call.
@@ -178,6 +179,12 @@ func canonVal(sb *strings.Builder, v reflect.Value, depth int) {
 		}
 		sb.WriteString("]")
 	case reflect.String:
+		if n := v.Len(); n > 4096 {
+			// a very long text is rendered by its length and digest (and its ends, for the reader of a report)
+			t := v.String()
+			fmt.Fprintf(sb, "text(%d bytes, sha %s, %q...%q)", n, sum([]byte(t)), t[:24], t[n-24:])
+			return
+		}
 		fmt.Fprintf(sb, "%q", v.String())
 	default:
 		fmt.Fprintf(sb, "%v", v.Interface())
@@ -1066,6 +1073,16 @@ func doCall(ctx context.Context, c *api.Client, rec *CallRecord) {
 		}
 		if r.coin() {
 			f.Deep.SetTo(makeRange(tag, r)) // deepObject: deep[min]=..
+		}
+		if call.Huge {
+			// a member longer than ten MiB: a body of that size is delivered whole or refused, never cut
+			big := strings.Repeat("0123456789abcdef", (10<<20)/16+r.intn(4096)) + "-end-" + tag
+			if r.intn(3) == 0 {
+				f.Langs = []string{big, "go-" + tag}
+			} else {
+				f.Nick.SetTo("nick-" + big)
+			}
+			rec.MayRefuse = true // refusing a body of that size is as good as delivering it
 		}
 		if call.Invalid != "" {
 			f.Name = ""
